@@ -67,4 +67,17 @@ theorem C20_all_action_sites_safe :
 example : htmlEscape "<script>\"x\"&'+".toList = "&lt;script&gt;&#34;x&#34;&amp;&#39;&#43;".toList := by decide
 example : runTok .data "<b".toList = .other := by decide
 
+/-- Tie (T1): the handlers that put request-controlled text on a page or into JSON — call/branch/store skeletons regenerated from the source on every run; the expectations below are
+what the model in this file transliterates. A structural edit of any of these functions breaks this theorem and sends the
+check searching for a failing input. -/
+theorem C20_wiring :
+    Sso.Generated.skel_proxy_ErrorPage =
+      ["call:isXHR", "if{", "call:New", "call:XHRError", "return", "}", "call:getRemoteAddr", "call:NewLogEntry", "call:WithRemoteAddress", "call:WithHTTPStatus", "call:WithPageTitle", "call:WithPageMessage", "call:Info", "call:WriteHeader", "call:ExecuteTemplate"] ∧
+    Sso.Generated.skel_proxy_XHRError =
+      ["call:getRemoteAddr", "call:NewLogEntry", "call:WithRemoteAddress", "call:Marshal", "if{", "call:WriteHeader", "return", "}", "call:String", "call:WithHTTPStatus", "call:WithRequestURI", "call:Error", "call:Header", "call:Set", "call:WriteHeader", "call:Write"] ∧
+    Sso.Generated.skel_auth_SignOutPage =
+      ["call:Get", "call:LoadSession", "if{", "call:Redirect", "return", "}", "call:Get", "call:Get", "call:Parse", "if{", "call:WriteHeader", "}", "call:Data", "call:ExecuteTemplate", "return"] ∧
+    Sso.Generated.skel_auth_SignInPage =
+      ["call:WriteHeader", "call:TrimPrefix", "call:ResolveReference", "call:Query", "call:Get", "call:Parse", "call:Data", "call:Data", "call:String", "call:ExecuteTemplate"] := by decide
+
 end Sso.Html
